@@ -105,3 +105,81 @@ for f in (r2a, r2b, r3):
         asyncio.run(f())
     except Exception as e:  # triage aid: show, do not hide
         print(f.__name__, "could not run:", type(e).__name__, e)
+
+
+# --------------------------------------------------------------------------------------------------
+# Validation of the *proposed* repair for C15.R2 (not applied to /repo): the same change expressed as a
+# subclass, run on the failing scenario and on the ordinary outcomes to see that nothing else changes.
+from llama_agents.server._store.abstract_workflow_store import is_terminal_status
+from workflows.runtime.types.plugin import ExternalRunAdapter
+
+
+class ObservedRuntime(ServerRuntimeDecorator):
+    def run_workflow(self, run_id, workflow, init_state, start_event=None, serialized_state=None, serializer=None):
+        adapter = super().run_workflow(run_id, workflow, init_state, start_event=start_event, serialized_state=serialized_state, serializer=serializer)
+        if not hasattr(self, "_completion_observers"):
+            self._completion_observers = set()
+        task = asyncio.create_task(self._observe_completion(run_id, adapter))
+        self._completion_observers.add(task)
+        task.add_done_callback(self._completion_observers.discard)
+        return adapter
+
+    async def _observe_completion(self, run_id: str, adapter: ExternalRunAdapter) -> None:
+        try:
+            await adapter.get_result()
+        except asyncio.CancelledError:
+            raise
+        except Exception as e:
+            found = await self._store.query(HandlerQuery(run_id_in=[run_id]))
+            if found and not is_terminal_status(found[0].status):
+                await self._handle_status_update(run_id, "failed", error=str(e))
+
+
+def build_fixed(store, idle_timeout=60.0):
+    rt = ObservedRuntime(IdleReleaseDecorator(PersistenceDecorator(BasicRuntime(), store=store), store=store, idle_timeout=idle_timeout), store=store, persistence_backoff=[0.01])
+    return rt, _WorkflowService(rt, store)
+
+
+async def r2_fixed():
+    class Resp(HumanResponseEvent): pass
+    async def one(store, wf_cls, hid, after=None, timeout=5, idle_timeout=60.0):
+        rt, svc = build_fixed(store, idle_timeout)
+        w = wf_cls(timeout=timeout); w._switch_workflow_name(hid); w._switch_runtime(rt)
+        await svc.start()
+        hd = await svc.start_workflow(w, hid, StartEvent())
+        if after: await after(svc, hd)
+        else: hd = await svc.await_workflow(hd)
+        await asyncio.sleep(0.3)
+        rec = (await store.query(HandlerQuery(handler_id_in=[hid])))[0]
+        await svc.stop()
+        return rec
+    class Ok(Workflow):
+        @step
+        async def s(self, ev: StartEvent) -> StopEvent: return StopEvent(result="ok")
+    class Boom(Workflow):
+        @step
+        async def s(self, ev: StartEvent) -> StopEvent: raise ValueError("step boom")
+    class Slow(Workflow):
+        @step
+        async def s(self, ev: StartEvent) -> StopEvent:
+            await asyncio.sleep(30); return StopEvent()
+    class Waits(Workflow):
+        @step
+        async def s(self, ctx: Context, ev: StartEvent) -> StopEvent:
+            r = await ctx.wait_for_event(Resp); return StopEvent(result="resumed")
+    async def cancel(svc, hd):
+        await asyncio.sleep(0.1); await svc.cancel_handler(hd.handler_id)
+    async def let_release(svc, hd):
+        await asyncio.sleep(0.6)
+    rec = await one(FlakyStore(), Ok, "flaky"); print("fixed r2a transient append_event failure ->", rec.status, "|", rec.error)
+    rec = await one(MemoryWorkflowStore(), Ok, "ok"); print("fixed completed ->", rec.status, getattr(rec.result, "result", None))
+    rec = await one(MemoryWorkflowStore(), Boom, "boom"); print("fixed step failure ->", rec.status, "|", rec.error)
+    rec = await one(MemoryWorkflowStore(), Slow, "slow", timeout=0.2); print("fixed timeout ->", rec.status, "|", rec.error)
+    rec = await one(MemoryWorkflowStore(), Slow, "cancel", after=cancel); print("fixed cancel ->", rec.status)
+    rec = await one(MemoryWorkflowStore(), Waits, "idle", after=let_release, idle_timeout=0.1); print("fixed idle-released (run task aborted, run not ended) ->", rec.status, "idle_since set:", rec.idle_since is not None)
+
+
+try:
+    asyncio.run(r2_fixed())
+except Exception as e:
+    import traceback; traceback.print_exc()
